@@ -323,6 +323,15 @@ def adds(ctx, f, role_field, cfg):
         if ok:
             w = must_pass(b, [pushes[0][0]], b.return_blocks(), [sorts[0][0]])
             ok = w is None and pushes[0][0] not in b.reachable(b.succs(sorts[0][0]))
+        # nothing re-orders the vector after the sort (reverse, swap, rotate, a second sort, ...)
+        later = []
+        if ok:
+            after = b.reachable(b.succs(sorts[0][0]))
+            for bb, t in b.calls():
+                if bb in after and t["args"] and (t.get("arg_tys") or [""])[0].startswith("&mut") and fld(t) == sf[0] \
+                        and callee_def(t).rsplit("::", 1)[-1] not in ("deref_mut", "as_mut_slice", "as_mut", "borrow_mut", "index_mut"):
+                    later.append(callee_def(t).rsplit("::", 1)[-1])
+            ok = not later
         # key closure returns order() of its parameter
         keyok = False
         if sorts:
@@ -334,10 +343,10 @@ def adds(ctx, f, role_field, cfg):
                         keyok = any_atom(a0, "call:BaseSlot::order") and not any_atom(a0, "variant:Reverse") and not any_atom(a0, "call:Reverse") and "op:Neg" not in a0 and "op:Sub" not in a0 and "op:Not" not in a0
         same = role_field.get(role) is not None and pf and pf[0] == [role_field[role]]
         allok = ok and keyok and same
-        ctx.instance("C13.add-sorts", b.path, {"pushes_to": pf, "sorts": sf, "key_is_order()": keyok, "vector_iterated_for_role": role_field.get(role), "other_sort_calls": len(other_sorts)},
+        ctx.instance("C13.add-sorts", b.path, {"pushes_to": pf, "sorts": sf, "key_is_order()": keyok, "vector_iterated_for_role": role_field.get(role), "other_sort_calls": len(other_sorts), "mutated_after_sort": later},
                      "push then sort_by_key(order) on the vector that entry() iterates for %s slots" % role, allok, cfg)
         if not allok:
-            why = "push/sort mismatch" if not ok else ("sort key is not order() ascending" if not keyok else "adds to a vector other than the one iterated for this role")
+            why = ("re-ordered after the sort: %s" % ",".join(later)) if later else "push/sort mismatch" if not ok else ("sort key is not order() ascending" if not keyok else "adds to a vector other than the one iterated for this role")
             ctx.violation("C13.add-sorts", "C13.add-sorts|%s|%s" % (role, why), "%s: %s" % (name, why), b.loc(), config=cfg)
     ctx.floor("C13.add-sorts", "SlotChain::add_* functions", n, 3)
 
